@@ -17,6 +17,7 @@ CASES = {
  "method alias in class body": "import copy\nclass P:\n    def __init__(self, v):\n        self.v = v\n    def clone(self):\n        return type(self)(self.v + 1)\n    __copy__ = clone\ndef f(a, b):\n    p = P(1)\n    return p.__copy__().v, copy.copy(p).v\n",
  "any/all/next over a generator expression are lazy": "LOG = []\ndef t(x):\n    LOG.append(x)\n    if x == 9:\n        raise KeyError(x)\n    return x > 0\ndef f(a, b):\n    r1 = any(t(x) for x in [0, 1, 9])\n    r2 = all(t(x) for x in [1, 0, 9])\n    r3 = next((x for x in [5, 9] if t(x)), None)\n    r4 = next((x for x in [] if t(x)), 'none')\n    r5 = any(t(x) for x in []) or all(t(x) for x in [])\n    return r1, r2, r3, r4, r5, list(LOG)\n",
  "repr/str/f-string of program objects": "class P:\n    def __init__(self, a):\n        self.a = a\n    def __repr__(self):\n        return f'P({self.a})'\nclass Q(P):\n    def __str__(self):\n        return 'q' + str(self.a)\ndef f(a, b):\n    d = {}\n    d[repr(P(1))] = 1\n    d[repr(P(1))] = 2\n    return d, str(P(2)), str(Q(3)), repr(Q(3)), f'{P(4)} {Q(5)} {Q(6)!r}'\n",
+ "missing attribute of a built-in value": "def f(a, b):\n    out = []\n    for v in ([1, 2], (1,), {'a': 1}, 'x', b'y', 3, None):\n        try:\n            v.sequence_count\n        except AttributeError:\n            out.append(type(v).__name__)\n    return out\n",
  "itertools.chain": "import itertools\ndef f(a, b):\n    return list(itertools.chain(a, b))\n",
  "chain.from_iterable": "import itertools\ndef f(a, b):\n    return list(itertools.chain.from_iterable([a, b]))\n",
  "enumerate start": "def f(a, b):\n    return [(i, x) for i, x in enumerate(a, start=1)]\n",
